@@ -49,6 +49,8 @@ def histories(rng, tier):
             # pre-allocate exactly the needed coverage pixels in shuffled order, plus a transient pixel then cleared
             need = sorted(set(p // c.nfine for p in pix))
             rng.shuffle(need)
+            if rng.random() < 0.35:
+                need = need + [rng.choice(need)]        # a coverage pixel named twice: still one block
             y.covpix = need
             h.append(y.line())
             h.append('upd y op=replace pix=%s vals=%s' % (','.join(map(str, pix)), ','.join(vals)))
